@@ -164,7 +164,7 @@ func inTrueRegion(b *ssa.BasicBlock, cond ssa.Value) bool {
 func checkC11(P *Program, r *Result, tier string) {
 	r.Explanation = "Rules on the shipped FastCodec structs (Base, BaseResp, ApplicationException): FIELD-TABLE (for every field the (id, wire type) written by FastWriteNocopy, dispatched on by FastRead and implied by the struct tag / Go type agree; the dispatch key keeps all bits of id and type; an optional map is written iff non-nil and allocated unconditionally when read), " +
 		"BLENGTH (BLength and FastWriteNocopy with a nil writer add up the same terms on every enumerated path), CURSOR-ARG (every decode/skip call in FastRead and every write call in FastWriteNocopy is issued at the running cursor, which advances by the callee's length), " +
-		"ORDER-FREE (a known field is decoded under no condition other than the (id, type) dispatch, STOP and error tests)."
+		"ORDER-FREE (a known field is decoded under no condition other than the (id, type) dispatch, STOP and error tests), LOOP-BOUND (a container's element loop runs exactly as often as its header declares)."
 	A := newAnalysis(P)
 	type target struct {
 		rel, typ string
@@ -363,6 +363,22 @@ func checkC11(P *Program, r *Result, tier string) {
 			}
 			r.add("CURSOR-ARG", shortName(rd), "skip", "an unknown field is skipped with the type its own header declared", P.pos(rd.Pos()), skipOK, "")
 		}
+		// element loops of the reader run exactly as often as the map header declares
+		loopBoundRule(P, r, "LOOP-BOUND", rd, func(c *ssa.Call) bool {
+			cal := c.Common().StaticCallee()
+			return isBinaryProtocolMethod(cal) && strings.HasPrefix(cal.Name(), "Read")
+		}, func(v ssa.Value) bool {
+			ex, ok := v.(*ssa.Extract)
+			if !ok {
+				return false
+			}
+			c, ok := ex.Tuple.(*ssa.Call)
+			if !ok {
+				return false
+			}
+			cal := c.Common().StaticCallee()
+			return isBinaryProtocolMethod(cal) && (cal.Name() == "ReadMapBegin" && ex.Index == 2 || (cal.Name() == "ReadListBegin" || cal.Name() == "ReadSetBegin") && ex.Index == 1)
+		})
 		if wr.Name() == "FastWriteNocopy" {
 			fa := A.fa(wr)
 			bad, pairs, calls := cursorPaths(P, fa, cursorSpec{Buf: wr.Params[1], Family: binaryFamily(false), AllowConst: true})
